@@ -73,6 +73,7 @@ class RScope:
         self.code = {}
         self.labels = []
         self.table = None
+        self.redef = set()  # := constants assigned more than once in this scope
 
     def chain(self):
         s = self
@@ -127,6 +128,10 @@ class RefAsm:
             raise Unspec("circular definition")
         for s in scope.chain():
             if name in s.defs:
+                if name in s.redef:
+                    # sequential meaning is defined for expansion-time uses only (conditions, loop bounds, eager macro
+                    # arguments, other := definitions); what an emission-time read of such a name sees is not specified
+                    raise Unspec(f"constant {name} assigned more than once is read at emission time")
                 if s is not scope:
                     self.stats["cross_scope_refs"] += 1
                 return self.resolve(s.defs[name], depth)
@@ -178,6 +183,8 @@ class RefAsm:
         """Value from what is known at this point of the layout: compile-time values and labels already placed."""
         def lk(n):
             for s in scope.chain():
+                if n in s.redef:
+                    raise Unspec(f"constant {n} assigned more than once is read by the layout")
                 if n in s.ct:
                     return s.ct[n]
                 v = s.defs.get(n)
@@ -290,6 +297,12 @@ class RefAsm:
                 v = self.ct_eval(st[2], scope)
             except Undefined as u:
                 raise Unspec(f":= over a name unknown at expansion time ({u})") from u
+            if st[1] in scope.ct and st[1] in scope.defs and isinstance(scope.defs[st[1]], int):
+                # assigned again: later EXPANSION-TIME uses see the new value (sequential); emission-time reads are unspecified
+                scope.redef.add(st[1])
+                scope.defs[st[1]] = v
+                scope.ct[st[1]] = v
+                return
             if st[1] in scope.defs:
                 raise Unspec("constant redefined")
             self.define(scope, st[1], v, ct=True)
